@@ -11,6 +11,7 @@ Correspondence: every `build_R_matrix_dimension_wise` / `calculate_B_dimension_w
 bins, threshold 200, copy rule, `b[i] == 0` recomputation rule)."""
 import itertools
 import math
+import time
 import traceback
 from fractions import Fraction as F
 
@@ -178,8 +179,10 @@ def replay_on_model(ck, drv, case, op, reuse, label):
 
 
 def explain_b_difference(ck, drv, case, op_on, stripes, b_on, b_ref_vals):
-    """is a deviating right-hand-side entry of the reuse run exactly what the mirrored defect of `find_data_in_domain`
-    (the sample with the largest coordinate of a dimension is never counted) produces?"""
+    """classifies a deviating right-hand-side entry of the reuse run: does the implementation's entry equal the model's
+    `bRecompute` while that differs from the sample mean?  (This was the signature of the `find_data_in_domain` slice defect
+    fixed by c6031a7; since the fix the model's recomputation is proved to BE the sample mean, so this can only fire on a
+    regression of both.)"""
     hats = hats_of(stripes)
     bad = [i for i in range(len(hats)) if not near(b_on[i], b_ref_vals[i], TOL)]
     if not bad:
@@ -302,6 +305,8 @@ def run_history(ctx, drv, case):
         # every single evaluation of the steps compared so far: right-hand sides identical, matrices equal up to the
         # rounding of the entries
         steps_ok = k if diverged else min(len(posts_on), len(posts_off))
+        if not ck.ok:
+            steps_ok += 1      # include the evaluations of the step whose surpluses differ: name the matrix / rhs that differs
         def evals_until(rec, nsteps):
             out, seen = [], 0
             for e in rec:
@@ -312,7 +317,7 @@ def run_history(ctx, drv, case):
                 else:
                     out.append(e)
             return out if nsteps > 0 else []
-        if ck.ok:
+        if True:
             for e1, e2 in zip(evals_until(on[0].rec, steps_ok), evals_until(off[0].rec, steps_ok)):
                 if e1[0] != e2[0]:
                     break
@@ -622,6 +627,7 @@ def run(ctx):
                 "branch; (uniform) StandardCombi schemes reuse on vs off; (interp) small-grid and large-grid interpolation branches on the same grid; "
                 "(keys) cache keys vs entries on random hat pairs. A case is distinct by its full description; all are non-trivial")
     drv = ctx.driver("drv_c17")
+    t_run = time.time()
     for line, want in MALFORMED:
         got = drv.ask(line)
         ctx.count("malformed_lines")
@@ -633,7 +639,7 @@ def run(ctx):
     gens = {"history": gen_history, "twostep": gen_twostep, "uniform": gen_uniform, "interp": gen_interp}
     n = 110 if not thorough else 1500
     k = 0
-    while k < n and ctx.time_left(budget) > 0:
+    while k < n and time.time() - t_run < budget:      # the budget counts from here, not from the Lean build
         kind = plan[k % len(plan)]
         k += 1
         case = gens[kind](ctx, thorough)
